@@ -38,6 +38,17 @@ var (
 		return strings.HasPrefix(n, "pb2.") || strings.HasPrefix(n, "pb3.") || strings.HasPrefix(n, "pbeditions.") ||
 			strings.HasPrefix(n, "hybrid.pbeditions.") || strings.HasPrefix(n, "opaque.pbeditions.")
 	})
+	// extensions, groups, maps of every key kind
+	shapeTypes = pick(stdTypes, func(n string) bool {
+		switch n {
+		case "pb2.Extensions", "pb2.Nests", "pb2.Maps", "pb3.Maps", "pbeditions.Nests", "pbeditions.Extensions", "pbeditions.Maps",
+			"goproto.proto.test.TestAllExtensions", "goproto.proto.test.TestAllTypes", "goproto.proto.test3.TestAllTypes",
+			"goproto.proto.testeditions.TestAllTypes", "goproto.proto.testeditions.TestAllExtensions", "opaque.goproto.proto.testeditions.TestAllTypes",
+			"protobuf_test_messages.proto2.TestAllTypesProto2", "protobuf_test_messages.editions.TestAllTypesEdition2023":
+			return true
+		}
+		return false
+	})
 	wktTypes = pick(stdTypes, func(n string) bool {
 		return specialJSON(protoreflect.FullName(n))
 	})
@@ -76,8 +87,10 @@ func drawType(t *rapid.T) string {
 		return rapid.SampledFrom(wktTypes).Draw(t, "type")
 	case 4, 5:
 		return rapid.SampledFrom(textpb).Draw(t, "type")
-	case 6, 7:
+	case 6:
 		return rapid.SampledFrom(richTypes).Draw(t, "type")
+	case 7, 8:
+		return rapid.SampledFrom(shapeTypes).Draw(t, "type")
 	default:
 		return rapid.SampledFrom(stdTypes).Draw(t, "type")
 	}
@@ -126,6 +139,7 @@ func checkCase(c jcase) error {
 		return fmt.Errorf("%s", why)
 	}
 	sem, exact, nanInAny := gen.Textual(md, c.M, nil)
+	stripped := exact // c.M without unknown fields (field structure of the original)
 	want := mcase.New(c.Type, c.Dynamic)
 	if err := model.Apply(want, exact, nil); err != nil {
 		return fmt.Errorf("harness: %v", err)
@@ -173,8 +187,25 @@ func checkCase(c jcase) error {
 			if err := (protojson.UnmarshalOptions{AllowPartial: true}).Unmarshal(b, m2.Interface()); err != nil {
 				return fmt.Errorf("%s: Unmarshal(Marshal(m)) failed (dynamic=%v): %v\noutput: %s", tag, dyn, err, clip(b))
 			}
-			gsem, _, _ := gen.Textual(md, model.Snapshot(m2), nil)
-			if d := model.Diff(md, sem, gsem, bit, nil); d != "" {
+			got := model.Snapshot(m2)
+			gsem, _, _ := gen.Textual(md, got, nil)
+			d := model.Diff(md, sem, gsem, bit, nil)
+			if d != "" && o.Unpopulated {
+				// null written for an unset Value / NullValue field reads back as a set null
+				var outside, inside int
+				nullReadback(md, c.M, false, &outside, &inside)
+				if outside+inside > 0 && pbt.ExcludeKnown(kfNullReadback) {
+					if inside > 0 {
+						continue // inside an Any payload: the decoded content is not comparable field by field
+					}
+					maskNullReadback(md, stripped, got)
+					gsem, _, _ = gen.Textual(md, got, nil)
+					if d = model.Diff(md, sem, gsem, bit, nil); d == "" {
+						continue
+					}
+				}
+			}
+			if d != "" {
 				return fmt.Errorf("%s: Unmarshal(Marshal(m)) differs from m without unknown fields (dynamic=%v): %s\noutput: %s", tag, dyn, d, clip(b))
 			}
 			if len(m2.GetUnknown()) != 0 {
@@ -309,7 +340,7 @@ func (c jcase) classes() (set map[string]bool, populated int, why string) {
 func TestRoundTrip(t *testing.T) {
 	pbt.Run(t, pbt.Prop[jcase]{
 		Name: "json-roundtrip",
-		Rule: "type: 30% messages embedding every well-known type (KnownTypes of textpb2/editions(+hybrid/opaque), conformance TestAllTypesProto3, Article, Option), 10% the well-known types themselves, 20% textpb2/textpb3/textpbeditions, 20% rich corpus types, 20% any Standard() type; generated or dynamicpb (and decoded into both). content: descriptor-directed draw (boundary scalars, NaN/-0, maps of every key kind, groups, extensions, unknown fields, 1/8 cases with raw bytes in unvalidated strings) plus own content generators for Timestamp/Duration (range ends +-1, sign mixes), FieldMask (reversible / irreversible / invalid paths), Value/Struct/ListValue (incl. non-finite, kind-less, invalid UTF-8), Any (registered type incl. the special forms and nested Any, canonical or perturbed payload with unknown fields; unresolvable URL, empty URL, malformed payload); 1..4 of the 64 option combinations per message. non-trivial = unrepresentable content (Marshal must fail), or representable content with >= 3 populated fields and a well-known type / Any / extension / group / map",
+		Rule: "type: 30% messages embedding every well-known type (KnownTypes of textpb2/editions(+hybrid/opaque), conformance TestAllTypesProto3, Article, Option), 10% the well-known types themselves, 20% textpb2/textpb3/textpbeditions, 10% rich corpus types, 20% types with extensions / groups / maps of every key kind, 10% any Standard() type; generated or dynamicpb (and decoded into both). content: descriptor-directed draw (boundary scalars, NaN/-0, maps of every key kind, groups, extensions, unknown fields, 1/8 cases with raw bytes in unvalidated strings) plus own content generators for Timestamp/Duration (range ends +-1, sign mixes), FieldMask (reversible / irreversible / invalid paths), Value/Struct/ListValue (incl. non-finite, kind-less, invalid UTF-8), Any (registered type incl. the special forms and nested Any, canonical or perturbed payload with unknown fields; unresolvable URL, empty URL, malformed payload); 1..4 of the 64 option combinations per message. non-trivial = unrepresentable content (Marshal must fail), or representable content with >= 3 populated fields and a well-known type / Any / extension / group / map",
 		Draw: drawCase, Check: checkCase,
 		NonTrivial: func(c jcase) bool {
 			set, n, why := c.classes()
@@ -335,6 +366,6 @@ func TestRoundTrip(t *testing.T) {
 			sort.Strings(out)
 			return out
 		},
-		Quick: 12000, Thorough: 150000,
+		Quick: 36000, Thorough: 150000,
 	})
 }
